@@ -180,6 +180,9 @@ func Replay(col *core.Collector, data []byte, path string, times int) error {
 		case "cache-order":
 			v, _, _ := cacheOrder(head.CaseSeed)
 			report("C16", v)
+		case "striped-burst":
+			v, _, _ := runStripedBurst(head.CaseSeed, 400)
+			report("C17", v)
 		case "striped":
 			var cfg stripedCfg
 			if err := json.Unmarshal(head.Trial, &cfg); err != nil {
